@@ -6,7 +6,7 @@
    [H] is the 64-bit key hash: universally quantified, so every statement
    holds under hash collisions.  [cfg_valid c] is exactly what
    NewFailureCache accepts: 1 s <= initialTTL <= maxTTL <= 5 min. *)
-From Sdns Require Import Common.Base Gen.C13 C13.Model C13.Proofs_Base C13.Proofs_Backoff C13.Proofs_Cache.
+From Sdns Require Import Common.Base Gen.C13 C13.Model C13.Proofs_Base C13.Proofs_Backoff C13.Proofs_Cache C13.Proofs_Conc.
 Open Scope Z_scope.
 
 (* The backoff starts at the configured minimum, is non-decreasing, at most
@@ -102,14 +102,43 @@ Proof.
 Qed.
 Print Assumptions streak_resets.
 
-(* FULL STATEMENT (DESIGN §5 C13 streak_advances_once): after expiry, any
-   number of CONCURRENT recorders of one key advance the streak exactly once
-   (the CompareAndSwap retry loop of FailureCache.record).
-   PROVED PART: the sequential core — a renewal advances the streak by exactly
-   one (saturating at 2^32-1) with at most twice the previous interval, and a
-   second recorder that runs after it finds the generation active and changes
-   nothing.  The interleaving of the load and the CAS is not modelled. *)
-Theorem streak_advances_once_partial : forall c, cfg_valid c ->
+(* After expiry, any number of CONCURRENT recorders of one key advance the
+   streak exactly once.  Model: the load / CompareAndSwap retry loop of
+   FailureCache.record with pointer identity as a stamp (Model.cas_step); the
+   theorem quantifies over EVERY schedule of the recorders' atomic steps.
+   Hypotheses: the slot holds the key's own expired entry; every recorder's
+   clock reading is at or after its retry-after and the readings lie within one
+   initial interval of each other (that is what "concurrent" means here — a
+   recorder arriving a whole backoff later legitimately starts the next
+   generation, see streak_advances_once_window_needed).
+   Conclusion: at most one store ever; once all have returned exactly one store
+   happened, the slot holds the renewal (streak +1 saturating / restart after
+   max idle, see renew_streak) and every recorder returned that same entry. *)
+Theorem streak_advances_once : forall c, cfg_valid c -> forall key prov id0 cur0 nows,
+  same_key (e_key cur0) key = true ->
+  (forall t, In t nows -> e_retry cur0 <= t) ->
+  (forall a b, In a nows -> In b nows -> a < b + c_init c) ->
+  forall next sched, (id0 < next)%N ->
+  let st := cas_run c key prov (cas_init id0 cur0 nows next) sched in
+  (cs_writes st <= 1)%N /\
+  (nows <> [] -> forallb rc_done (cs_threads st) = true ->
+   exists w id1, In w nows /\ cs_writes st = 1%N /\ cs_slot st = Some (id1, renew c cur0 prov w) /\
+                 Forall (fun r => r = RcDone (renew c cur0 prov w)) (cs_threads st)).
+Proof. exact cas_streak_advances_once. Qed.
+Print Assumptions streak_advances_once.
+
+(* the window hypothesis is necessary: a recorder whose clock is a full
+   backoff later than the winner's advances the streak a second time *)
+Theorem streak_advances_once_window_needed :
+  let c := mk_cfg default_initial_ttl default_max_ttl in
+  let k := EZ (mk_zkey [[101;120]]%N 1) in
+  let cur := mk_entry k 2%N 1%N 5000000000 in
+  cs_writes (cas_run c k 2%N (cas_init 7 cur [5000000000; 16000000000] 8) [0; 0; 1; 1]%nat) = 2%N.
+Proof. exact window_needed_witness. Qed.
+Print Assumptions streak_advances_once_window_needed.
+
+(* the sequential facts the loop rests on *)
+Theorem renewal_and_idempotence : forall c, cfg_valid c ->
   (forall m h key prov now cur,
      mget h m = Some cur -> same_key (e_key cur) key = true ->
      e_retry cur <= now < e_retry cur + c_max c -> (1 <= e_streak cur)%N ->
@@ -121,7 +150,7 @@ Theorem streak_advances_once_partial : forall c, cfg_valid c ->
      mget h m = Some cur -> same_key (e_key cur) key = true -> now < e_retry cur ->
      fc_record c m h key prov now = (m, cur, false)).
 Proof. exact (fun c V => conj (renewal_advances_once c V) (record_idempotent_while_active c)). Qed.
-Print Assumptions streak_advances_once_partial.
+Print Assumptions renewal_and_idempotence.
 
 (* Failures local to one request never become shared state: the write-back of
    a failure response leaves the store untouched whenever any request-local
@@ -179,19 +208,26 @@ Theorem disabled_is_inert : forall H c s, s_disabled s = true ->
 Proof. exact Proofs_Cache.disabled_is_inert. Qed.
 Print Assumptions disabled_is_inert.
 
-(* FULL STATEMENT (single_probe): the first retry after a backoff is led by a
-   single probe — concurrent followers of an expired entry wait for one
-   leader and re-elect at most once.
-   PROVED PART: the key side of it — every question at or below a zone whose
-   retained state has expired (nothing retained closer, no active zone above,
-   own exact history not active) is given the SAME retry key, the zone's, so
-   all such requests join one singleflight group.  The waitgroup generation
-   hand-over itself is C11's regroup_converges; here it is covered by the
-   probe-cohort correspondence case (one upstream call observed). *)
-Theorem single_probe_partial : forall H m now cl z p t cd sc h,
+(* The first retry after a backoff is led by a single probe.
+   (1) Key side: every question at or below a zone whose retained state has
+       expired (nothing retained closer, no active zone above, own exact state not
+       active) is given the SAME retry key, the zone's — so all such requests
+       meet in one singleflight group.
+   (2) Election side: the waitgroup hand-over Cache.ServeDNS uses
+       (JoinGeneration / Regroup / DoneGeneration, Model.probe_step) keeps AT MOST
+       ONE request of that group in flight, for any number of requests and EVERY
+       interleaving of arrivals, leader completions with any outcome (shared
+       failure recorded, request-local failure, recovery) and follower wake-ups.
+   Not modelled: the 15 s generation timeout (an abandoned leader; the code then
+   sheds the followers instead of re-electing). *)
+Theorem single_probe_key : forall H m now cl z p t cd sc h,
   (forall p' q, p = q ++ p' -> p' <> [] -> load_zone H m (mk_zkey (canon_name (p' ++ z)) cl) = None) ->
   (forall e, load_question H m (norm_qkey (mk_qkey (p ++ z) t cl cd sc)) = Some e -> e_retry e <= now) ->
   scan_zones H m (suffixes (canon_name z)) cl now None = ZExpired h ->
   fc_retry_key H m (mk_qkey (p ++ z) t cl cd sc) now = Some h.
 Proof. exact retry_key_below_expired_zone. Qed.
-Print Assumptions single_probe_partial.
+Print Assumptions single_probe_key.
+
+Theorem single_probe : forall n sched, (in_flight (probe_run (probe_init n) sched) <= 1)%nat.
+Proof. exact single_probe_in_flight. Qed.
+Print Assumptions single_probe.
